@@ -132,15 +132,19 @@ fn small_map(max: u8) -> TinyMap<Max<u8>> {
     m
 }
 fn mat(m: &TinyMap<Max<u8>>, k: u8) -> u8 { match m.pos(k) { Some(i) => m.v[i].into_reveal(), None => 0 } }
-fn sym_tm() -> (TinyMap<Max<u8>>, TinySet) {
-    let (m, t) = (small_map(2), small_set(2));
+fn sym_tm() -> (TinyMap<Max<u8>>, TinySet) { sym_tm_n(2) }
+fn sym_tm_n(max: u8) -> (TinyMap<Max<u8>>, TinySet) {
+    let (m, t) = (small_map(max), small_set(max));
     let mut i = 0;
     while i < m.n { kani::assume(!t.has(m.k[i])); i += 1; }   // invariant: no live entry under a tombstone
     (m, t)
 }
 #[kani::proof] #[kani::unwind(8)]
-pub(crate) fn tombstone_map_merge() {
-    let (a, b) = (sym_tm(), sym_tm());
+pub(crate) fn tombstone_map_merge() { tombstone_map_merge_of(sym_tm(), sym_tm()) }
+/// quick-tier instance: at most one live entry and one tombstone per operand
+#[kani::proof] #[kani::unwind(8)]
+pub(crate) fn tombstone_map_merge_one_entry() { tombstone_map_merge_of(sym_tm_n(1), sym_tm_n(1)) }
+fn tombstone_map_merge_of(a: (TinyMap<Max<u8>>, TinySet), b: (TinyMap<Max<u8>>, TinySet)) {
     let mut x: Tm = MapUnionWithTombstones::new(a.0, a.1);
     let changed = x.merge(MapUnionWithTombstones::new(b.0, b.1));
     let (m, t) = x.into_reveal();
